@@ -1,4 +1,4 @@
-import BR.Model.Config
+import BR.Lemmas.Config
 /-!
 # C19 — flags, environment variables and YAML agree; invalid set-ups are refused at start
 
@@ -52,36 +52,6 @@ theorem default_diff_pinned :
   decide
 
 /-! ## flags and YAML agree -/
-
-theorem ctxGet_of_ok {acc kind : String} {v : Val} (h1 : accOK acc kind = true) (h2 : kindMatches kind v = true) :
-    ctxGet acc kind v = v := by
-  cases v with
-  | s x =>
-    have hk : kind = "String" := by simpa [kindMatches] using h2
-    subst hk
-    simp [accOK] at h1
-    simp [ctxGet, h1]
-  | i x =>
-    have hk : kind = "Int" ∨ kind = "Int64" := by simpa [kindMatches] using h2
-    rcases hk with hk | hk <;> subst hk <;> simp [accOK] at h1 <;> simp [ctxGet, h1]
-  | b x =>
-    have hk : kind = "Bool" := by simpa [kindMatches] using h2
-    subst hk
-    simp [accOK] at h1
-    simp [ctxGet, h1]
-  | d x =>
-    have hk : kind = "Duration" := by simpa [kindMatches] using h2
-    subst hk
-    simp [accOK] at h1
-    simp [ctxGet, h1]
-  | nil => simp [kindMatches] at h2
-
-theorem acc_ne_empty {acc kind : String} (h : accOK acc kind = true) : (acc == "") = false := by
-  cases hacc : acc == ""
-  · rfl
-  · have : acc = "" := by simpa using hacc
-    subst this
-    simp [accOK] at h
 
 /-- **the assignments the property quantifies over**: typed values; the two settings that are not
 expressible identically are not given; the settings whose omitted default differs are given
@@ -152,13 +122,6 @@ theorem agree_of_mem {a : Assign} (hC : Comparable a) {fd : FD} (hm : fd ∈ all
       | false =>
         have := hC.explicit fd hm hs hact
         simp [Assign.given, hget] at this
-
-theorem flatMap_congr' {α β} (l : List α) (f g : α → List β) (h : ∀ x ∈ l, f x = g x) : l.flatMap f = l.flatMap g := by
-  induction l with
-  | nil => rfl
-  | cons x xs ih =>
-    simp only [List.flatMap_cons]
-    rw [h x (by simp), ih (fun y hy => h y (by simp [hy]))]
 
 theorem top_mem {fd : FD} (h : fd ∈ topFDs) : fd ∈ allFDs := by
   unfold allFDs; simp [h]
@@ -269,20 +232,6 @@ theorem explicit_setting_same (a : Assign) (fd : FD) (hm : fd ∈ allFDs) (hg : 
   simp [ctxGet_of_ok hacc ht]
 
 /-! ## invalid set-ups are refused -/
-
-theorem rejects_of_check (v : VCfg) (c : String × (VCfg → Bool)) (hc : c ∈ checks) (hf : c.2 v = true) :
-    (validate v).isSome = true := by
-  unfold validate
-  rw [Option.isSome_map, List.find?_isSome]
-  exact ⟨c, hc, hf⟩
-
-theorem start_none_of_invalid (c : Cfg) (h : (validate (view c)).isSome = true) : start c = none := by
-  unfold start
-  split
-  · rfl
-  · cases hv : validate (view c) with
-    | none => rw [hv] at h; cases h
-    | some _ => rfl
 
 /-- the invalid classes of the property, each for arbitrary values of all other settings -/
 theorem missing_dir_rejected (v : VCfg) (h : v.dir = "") : (validate v).isSome = true :=
